@@ -79,6 +79,9 @@ LAWS = [
     ("+x * k", "refuse"),
     ("k * x if x > 1.0 and y > 1.0 else k", "refuse"),
     ("k * x if not x > 1.0 else k", "refuse"),
+    ("k * x if x > 0.75 and y > 0.75 and x < y else k", "refuse"),
+    ("k * x if x > 2.5 or y > 2.5 or x == y else k", "refuse"),
+    ("k * x if x > 0.75 and (y > 1.75 or x > 2.5) else k", "refuse"),
     ("math.atan2(x, y)", "refuse"),
 ]
 BODIES = [  # multi-statement bodies: outside the single-expression subset
